@@ -13,6 +13,14 @@
 //!   reader tokens: d<hex> | D<hex> (claims more than offered) | z (Ok(0)) | i (EINTR) | e<errno> | u (Uncategorized)
 //!   writer tokens: a<k> | A<k> (claims more than offered) | i | e<errno> | u
 //!   A reader past its script returns Ok(0); a writer past its script accepts everything.
+//!   prt  <kind p|P|e|E|d> <tpl> [h<hex>] <items ..> [, [h<hex>] <items ..>] / <kernel tokens..>
+//!        the print macros of tiny-std/src/unix/print.rs (p print!, P println!, e eprint!, E eprintln!, d dbg!) with the
+//!        format template <tpl> (see `run_prt`), whose run-time arguments issue one `write_str` per item
+//!        (s<hex> | g<len>.<seed> generated ASCII | f = the Display impl fails); `,` separates two arguments;
+//!        h<hex> = the "[file:line] expr = " header of dbg! (filled in by the gen pass).  The `write` system call on
+//!        fd 1/2 is scripted through the sc-shim: kernel tokens a<k> (returns k) | o (returns 0 for an empty buffer) |
+//!        i (EINTR) | e<errno>; abstract k<n> = accept min(n, offered).  Past the script the kernel takes everything.
+//!        Answer: `<done|panic> sink=<bytes the kernel took, in order> used=<tokens consumed> fd=<1|2|-|mixed>`.
 //! Answer: `<ok [n]|err os <e>|err user|err uncat|panic> buf=|sink=<hex> used=<tokens consumed>`; with `--detail`
 //! additionally ` # log=<offered>/<carried>,.. caps=<capacities after each growth> cap=<final> uninit=<0|1>`.
 //!
@@ -590,6 +598,258 @@ fn run_wfmt(gen: bool, detail: bool, a: &[&str]) -> Option<String> {
     Some(out)
 }
 
+// ---------------------------------------------------------------------------------------------
+// The print macros (tiny-std/src/unix/print.rs) against a scripted `write` system call.
+struct Kern {
+    toks: Vec<WTok>,
+    pos: usize,
+    sink: Vec<u8>,
+    calls: Vec<usize>,
+    fds: Vec<usize>,
+    given: Vec<String>,
+}
+impl Kern {
+    fn parse(toks: &[&str]) -> Option<Kern> {
+        let mut out = Vec::new();
+        for t in toks {
+            let (h, rest) = t.split_at(1);
+            out.push(match h {
+                "a" | "A" => WTok::Accept(rest.parse().ok()?),
+                "o" if rest.is_empty() => WTok::Accept(0),
+                "k" => WTok::UpTo(rest.parse().ok()?),
+                "i" if rest.is_empty() => WTok::Eintr,
+                "e" => WTok::Err(rest.parse().ok()?),
+                _ => return None,
+            });
+        }
+        Some(Kern { toks: out, pos: 0, sink: Vec::new(), calls: Vec::new(), fds: Vec::new(), given: Vec::new() })
+    }
+    fn tok(k: usize, offered: usize) -> String {
+        if k == 0 && offered == 0 {
+            "o".into()
+        } else {
+            format!("{}{}", if k > offered { "A" } else { "a" }, k)
+        }
+    }
+    fn write(&mut self, fd: usize, buf: &[u8]) -> usize {
+        let offered = buf.len();
+        self.calls.push(offered);
+        if !self.fds.contains(&fd) {
+            self.fds.push(fd);
+        }
+        if self.pos >= self.toks.len() {
+            self.sink.extend_from_slice(buf);
+            return offered;
+        }
+        self.pos += 1;
+        match self.toks[self.pos - 1] {
+            WTok::UpTo(k) => {
+                let k = k.min(offered);
+                self.sink.extend_from_slice(&buf[..k]);
+                self.given.push(Self::tok(k, offered));
+                k
+            }
+            WTok::Accept(k) => {
+                self.sink.extend_from_slice(&buf[..k.min(offered)]);
+                self.given.push(Self::tok(k, offered));
+                k
+            }
+            WTok::Eintr => {
+                self.given.push("i".into());
+                sc::shim::neg_errno(4)
+            }
+            WTok::Err(e) => {
+                self.given.push(format!("e{}", e));
+                sc::shim::neg_errno(e as usize)
+            }
+            WTok::Over(_) | WTok::Uerr => unreachable!(),
+        }
+    }
+    fn concrete(&self) -> String {
+        let mut out = self.given.clone();
+        for t in &self.toks[self.pos..] {
+            match *t {
+                WTok::UpTo(k) | WTok::Accept(k) => out.push(format!("a{}", k)),
+                WTok::Eintr => out.push("i".into()),
+                WTok::Err(e) => out.push(format!("e{}", e)),
+                WTok::Over(_) | WTok::Uerr => {}
+            }
+        }
+        out.join(" ")
+    }
+}
+
+/// deterministic printable-ASCII content (same rule in Model/Io.lean `genBytes` and checks/c15.py)
+fn gen_bytes(len: usize, seed: usize) -> String {
+    (0..len).map(|i| (33 + (seed + i + i / 94) % 94) as u8 as char).collect()
+}
+
+impl core::fmt::Debug for Pieces<'_> {
+    fn fmt(&self, f: &mut core::fmt::Formatter<'_>) -> core::fmt::Result {
+        core::fmt::Display::fmt(self, f)
+    }
+}
+
+// compile-time literal segments: "0123456789abcdef" repeated, cut at the length in the name
+macro_rules! c16 { () => { "0123456789abcdef" }; }
+macro_rules! c64 { () => { concat!(c16!(), c16!(), c16!(), c16!()) }; }
+macro_rules! c256 { () => { concat!(c64!(), c64!(), c64!(), c64!()) }; }
+macro_rules! c1024 { () => { concat!(c256!(), c256!(), c256!(), c256!()) }; }
+macro_rules! l255 { () => { concat!(c64!(), c64!(), c64!(), c16!(), c16!(), c16!(), "0123456789abcde") }; }
+macro_rules! l257 { () => { concat!(c256!(), "0") }; }
+macro_rules! l300 { () => { concat!(c256!(), c16!(), c16!(), "0123456789ab") }; }
+macro_rules! l4096 { () => { concat!(c1024!(), c1024!(), c1024!(), c1024!()) }; }
+
+/// one call site per (macro, template); `false` = no such template
+macro_rules! tpl_call {
+    ($m:ident, $tpl:expr, $a:expr, $b:expr, $num:expr, $s:expr) => {
+        match $tpl {
+            "n" => { tiny_std::$m!(); true }
+            "a" => { tiny_std::$m!("{}", $a); true }
+            "b" => { tiny_std::$m!("id={} payload={} end", $a, $b); true }
+            "c" => { tiny_std::$m!(concat!(l255!(), "{}", c256!(), "{}", l257!()), $a, $b); true }
+            "d" => { tiny_std::$m!(concat!("x{}", l4096!(), "{}"), $a, $b); true }
+            "l" => { tiny_std::$m!(l300!()); true }
+            "s" => { tiny_std::$m!("done"); true }
+            "g" => { tiny_std::$m!("n={} s={}", $num, $s); true }
+            _ => false,
+        }
+    };
+}
+
+fn run_prt(gen: bool, detail: bool, a: &[&str]) -> Option<String> {
+    use std::cell::RefCell;
+    use std::rc::Rc;
+    if a.len() < 3 {
+        return None;
+    }
+    let kind = a[0];
+    let tpl = a[1];
+    let slash = a.iter().position(|t| *t == "/")?;
+    // arguments: lists of items separated by ","
+    let mut args: Vec<Vec<Option<String>>> = vec![Vec::new()];
+    let mut num: i64 = 0;
+    let mut have_num = false;
+    for t in &a[2..slash] {
+        if *t == "," {
+            args.push(Vec::new());
+        } else if *t == "f" {
+            args.last_mut().unwrap().push(None);
+        } else if let Some(h) = t.strip_prefix('s') {
+            args.last_mut().unwrap().push(Some(String::from_utf8(unhex(h)?).ok()?));
+        } else if let Some(g) = t.strip_prefix('g') {
+            let (l, s) = g.split_once('.')?;
+            let (l, s): (usize, usize) = (l.parse().ok()?, s.parse().ok()?);
+            if l > 200_000 {
+                return None;
+            }
+            args.last_mut().unwrap().push(Some(gen_bytes(l, s)));
+        } else if let Some(n) = t.strip_prefix('n') {
+            num = n.parse().ok()?;
+            have_num = true;
+        } else if t.starts_with('h') && !gen {
+            unhex(&t[1..])?; // header recorded by the gen pass; the macro produces it itself
+        } else {
+            return None;
+        }
+    }
+    let nargs_needed = match (kind, tpl) {
+        (_, "n") | (_, "l") | (_, "s") => 0,
+        ("d", "a") => 1,
+        ("d", "b") => 2,
+        ("d", _) => return None,
+        (_, "a") | (_, "g") => 1,
+        (_, "b") | (_, "c") | (_, "d") => 2,
+        _ => return None,
+    };
+    if nargs_needed == 0 {
+        if args.len() != 1 || !args[0].is_empty() {
+            return None;
+        }
+    } else if args.len() != nargs_needed {
+        return None;
+    }
+    let gstr: String = if tpl == "g" {
+        // exactly one number and one string item
+        if !have_num || args[0].len() != 1 {
+            return None;
+        }
+        args[0][0].clone()?
+    } else {
+        if have_num {
+            return None;
+        }
+        String::new()
+    };
+    let empty: Vec<Option<String>> = Vec::new();
+    let a0 = Pieces(&args[0]);
+    let a1 = Pieces(if args.len() > 1 { &args[1] } else { &empty });
+    let kern = Rc::new(RefCell::new(Kern::parse(&a[slash + 1..])?));
+    let k2 = kern.clone();
+    sc::shim::set_handler(Box::new(move |nr, args, _n| {
+        if nr == sc::nr::WRITE && (args[0] == 1 || args[0] == 2) {
+            let buf = unsafe { core::slice::from_raw_parts(args[1] as *const u8, args[2]) };
+            Some(k2.borrow_mut().write(args[0], buf))
+        } else {
+            None
+        }
+    }));
+    let mut hdrs: Vec<String> = Vec::new();
+    let r = catch_unwind(AssertUnwindSafe(|| match kind {
+        "p" => tpl_call!(print, tpl, a0, a1, num, gstr.as_str()),
+        "P" => tpl_call!(println, tpl, a0, a1, num, gstr.as_str()),
+        "e" => tpl_call!(eprint, tpl, a0, a1, num, gstr.as_str()),
+        "E" => tpl_call!(eprintln, tpl, a0, a1, num, gstr.as_str()),
+        // the header is "[file:line] expr = " with the line of the dbg! invocation: keep each pair on one line
+        "d" => match tpl {
+            "n" => { hdrs.push(format!("[{}:{}]", file!(), line!())); tiny_std::dbg!(); true }
+            "a" => { hdrs.push(format!("[{}:{}] {} = ", file!(), line!(), "a0")); let _ = tiny_std::dbg!(a0); true }
+            "b" => { let l = line!(); hdrs.push(format!("[{}:{}] {} = ", file!(), l, "a0")); hdrs.push(format!("[{}:{}] {} = ", file!(), l, "a1")); let _ = tiny_std::dbg!(a0, a1); true }
+            _ => false,
+        },
+        _ => false,
+    }));
+    sc::shim::reset();
+    let known = match &r {
+        Ok(b) => *b,
+        Err(_) => true,
+    };
+    if !known {
+        return None;
+    }
+    let k = kern.borrow();
+    if gen {
+        // the concrete line: items as given, dbg! headers inserted before each argument, responses as answered
+        let mut items: Vec<String> = Vec::new();
+        let mut hi = 0;
+        if kind == "d" && hi < hdrs.len() {
+            items.push(format!("h{}", hex(hdrs[hi].as_bytes())));
+            hi += 1;
+        }
+        for t in &a[2..slash] {
+            if t.starts_with('h') {
+                continue;
+            }
+            items.push((*t).to_string());
+            if *t == "," && kind == "d" && hi < hdrs.len() {
+                items.push(format!("h{}", hex(hdrs[hi].as_bytes())));
+                hi += 1;
+            }
+        }
+        return Some(format!("prt {} {} {} / {}", kind, tpl, items.join(" "), k.concrete()).replace("  ", " ").trim_end().to_string());
+    }
+    let fd = match k.fds.as_slice() {
+        [] => "-".to_string(),
+        [x] => x.to_string(),
+        _ => "mixed".to_string(),
+    };
+    let mut out = format!("{} sink={} used={} fd={}", if r.is_ok() { "done" } else { "panic" }, hex(&k.sink), k.pos, fd);
+    if detail {
+        out.push_str(&format!(" # log={}", commas(&k.calls)));
+    }
+    Some(out)
+}
+
 fn main() {
     std::panic::set_hook(Box::new(|_| {}));
     let detail = std::env::args().any(|a| a == "--detail");
@@ -612,6 +872,7 @@ fn main() {
                 "rex" => run_rex(gen, detail, &w[1..]),
                 "wall" => run_wall(gen, detail, &w[1..]),
                 "wfmt" => run_wfmt(gen, detail, &w[1..]),
+                "prt" => run_prt(gen, detail, &w[1..]),
                 _ => None,
             }
         };
